@@ -54,7 +54,7 @@ _TIE = ("The model is tied to /repo on every run: the same step functions (compi
 CLAIMS = {
     "C17": {
         "text": "For each of the five primitives a potential phi (outstanding wake-ups + weights of the polled, uncompleted futures; for the OnceCell also the listeners a successful initialisation will wake) is proved to decrease strictly with EVERY re-poll of a pending future whose waker was called - any waker, either outcome of the Mutex's 0.5 ms test, any outcome of a woken OnceCell caller's initialiser - at every reachable state of the poll-granular models (theorems C17_*_step). Hence any sequence of such re-polls, in any order, with nothing released, started or cancelled in between, has length at most woken + 2*pending (Semaphore, Barrier), woken + 4*pending (Mutex), woken + 6*pending (RwLock), woken + 2*pending + listeners (OnceCell) (theorems C17_sem, C17_mutex, C17_rwlock, C17_once, C17_barrier): no wake-up cycle exists. " + _TIE + " The harness runs the woken futures to quiescence (settle) as a probe at every new state of the exhaustive DFS, from the most contended states found (beam search) and inside the random histories; the number of polls and the wakers called are compared with the model's, and the bound polls <= 5*pending is evaluated on the implementation at every settle." + _INJW,
-        "note": "PARTIAL: atomic polls (no thread interleavings, no parked threads). woken <= pending (every outstanding wake-up is the owner of its own notified listener) is proved for Semaphore, Mutex, Barrier and OnceCell (C17_sem_pending: n <= 3*pending, C17_mutex_pending: 5*pending, C17_barrier_pending: 3*pending, C17_once_pending: 4*pending); for the RwLock it is not proved (true of the harness's woken set by construction).",
+        "note": "PARTIAL: atomic polls (no thread interleavings, no parked threads). woken <= pending (every outstanding wake-up is the owner of its own notified listener) is proved for all five primitives, giving bounds in pending alone (C17_sem_pending: n <= 3*pending, C17_mutex_pending: 5*pending, C17_rwlock_pending: 7*pending, C17_once_pending: 4*pending, C17_barrier_pending: 3*pending).",
     },
     "C16": {
         "text": "The property's domain is a finite table - (public T-parametric type, Send / Sync / covariance / outlives question, kind of T among Send+Sync, Send only, Sync only, neither). rustc's verdict for every row is regenerated from /repo's working tree on every run (one table binary + 90 probe programs, each negative probe with a compiling control) into lean/ALock/Generated/Markers.lean. Lean theorems over the whole table: if rustc accepts X<T>: Send (Sync) for a kind of T, then nothing reachable by owning (sharing) an X<T> - through guard conversions, future outputs, source(), the Arc it holds - needs T: Send or T: Sync unless T has it (C16_markers; Sound is reachability in the capability graph of the public API, decided by a closed-set check the kernel evaluates); write/upgradable guards and the write/upgrade futures need both (C16_write_needs_both, from the model); source() is callable on a Sync guard only for T: Send (C16_source); covariant types never lead to &mut T (C16_variance); no borrowed guard or future outlives its lock (C16_lifetimes); marker bounds mention only Send/Sync so four kinds are a complete case split (C16_complete).",
